@@ -106,3 +106,16 @@ VARIANTS += [
          "                if obj[i, j] != obj[i, j]:")],
         "fire", "D5.3"),
 ]
+
+VARIANTS += [
+    V("multiplier-scales-only-n-cities", "moptipyapps/tsp/instance.py",
+      "        limit: Final[int] = (check_int_range(\n"
+      "            upper_bound_range_multiplier, "
+      "\"upper_bound_range_multiplier\", 1)\n"
+      "            * max(upper_bound, n_cities))",
+      "        limit: Final[int] = max(upper_bound, check_int_range(\n"
+      "            upper_bound_range_multiplier, "
+      "\"upper_bound_range_multiplier\", 1)\n"
+      "            * n_cities)", "fire", "D5.3",
+      "seed C05-multiplier-scales-only-n-cities"),
+]
